@@ -15,6 +15,20 @@ Definition drain {X} (l : list X) (lo hi : nat) : res (list X) :=
 Definition for_z {S} (lo hi : Z) (body : Z -> S -> res S) (s : S) : res S :=
   for_ 0 (Z.to_nat (hi - lo)) (fun k s => body (lo + Z.of_nat k)%Z s) s.
 
+(* a `for` loop with a `return` inside: the body answers inl (next state) or inr (the value returned by the function) *)
+Fixpoint for_ret_from {S R} (n lo : nat) (body : nat -> S -> res (S + R)) (s : S) : res (S + R) :=
+  match n with
+  | 0 => Ok (inl s)
+  | Datatypes.S n' =>
+      let* o := body lo s in
+      match o with
+      | inl s' => for_ret_from n' (Datatypes.S lo) body s'
+      | inr r => Ok (inr r)
+      end
+  end.
+Definition for_ret {S R} (lo hi : nat) (body : nat -> S -> res (S + R)) (s : S) : res (S + R) :=
+  for_ret_from (hi - lo) lo body s.
+
 (* Option::unwrap / Result::unwrap *)
 Definition unwrap_opt {X} (o : option X) : res X :=
   match o with Some x => Ok x | None => Panic Unwrap end.
